@@ -480,12 +480,20 @@ class FitBase(FileIOMixin, object):
 
     @data.setter
     def data(self, new_data):
-        self._set_new_data(new_data)
-        # validate cost function
-        _data_and_cost_compatible, _reason = self._cost_function.is_data_compatible(self.data)
-        if not _data_and_cost_compatible:
-            raise ValueError("Fit data and cost function are not compatible: %s" % _reason)
-        self._set_new_parametric_model()
+        _old_data_container, _old_param_model = self._data_container, self._param_model
+        try:
+            self._set_new_data(new_data)
+            # validate cost function
+            _data_and_cost_compatible, _reason = self._cost_function.is_data_compatible(self.data)
+            if not _data_and_cost_compatible:
+                raise ValueError("Fit data and cost function are not compatible: %s" % _reason)
+            self._set_new_parametric_model()
+        except Exception:
+            if _old_data_container is not None:
+                # the new data was rejected: go back to the previous data
+                self._set_new_data(_old_data_container)
+                self._param_model = _old_param_model
+            raise
         self._param_model._on_error_change_callbacks = [self._on_error_change]
 
     @property
@@ -795,13 +803,14 @@ class FitBase(FileIOMixin, object):
 
         :param typing.Iterable[float] param_value_list: List of parameter values (mind the order).
         """
+        _return_value = self._fitter.set_all_fit_parameter_values(param_value_list)
         if self._param_model is not None:
             self._param_model.parameters = param_value_list
         for _par_name, _par_val in zip(self.parameter_names, param_value_list):
             if _par_val != 0:
                 self._fit_param_names_bad_default.discard(_par_name)
             check_numerical_range(_par_val, f"{_par_name} (set by user)")
-        return self._fitter.set_all_fit_parameter_values(param_value_list)
+        return _return_value
 
     def fix_parameter(self, name, value=None):
         """Fix a parameter so that its value doesn't change when calling :py:meth:`~do_fit()`.
@@ -1343,9 +1352,10 @@ class FitBase(FileIOMixin, object):
 
         if file_format in ("yaml", "yml"):
             with open(filename, "r", encoding="utf8") as _f:
-                self._loaded_result_dict = to_numpy_arrays(yaml.safe_load(_f))
+                _loaded_result_dict = to_numpy_arrays(yaml.safe_load(_f))
         else:
             raise ValueError(f"Unknown file format: {file_format}. Available: yaml")
-        _new_par_vals = self._loaded_result_dict.pop("parameter_values", None)
+        _new_par_vals = _loaded_result_dict.pop("parameter_values", None)
         if _new_par_vals is not None:
             self._fitter.set_all_fit_parameter_values(_new_par_vals)
+        self._loaded_result_dict = _loaded_result_dict
